@@ -19,6 +19,33 @@ CHECKS = {
              "<=2 groups, one 3-line layout with/without an annotated line.",
         technique="symbolic execution of the real scheduler with z3 (ranges symbolic), clause-wise assertions, replay",
     ),
+    "C15": dict(
+        category="model_checking",
+        text="Bounded symbolic model checking of the real core.literal_value: every expression shape of depth 1 "
+             "(~6900) plus a seed-chosen sample of depth 2 (thorough: depth 3 sample) with integer/boolean leaves as "
+             "solver variables (all integers, LIA); oracle = Python's own evaluation of the same expression over the "
+             "same proxies; effectful builtins are recording stubs so 'evaluation has effects' is observable.",
+        design_ref="DESIGN.md section 4 / C15",
+        note="Trusted: z3, the proxies (fidelity self-test: 400 expressions with concrete values through plain Python "
+             "and through pinned proxies must agree; every counterexample replayed with ordinary literals on the "
+             "unmodified package). Bounded: expression depth, concrete string/container leaves, exponents/shifts/bit "
+             "operations in -3..6.",
+        technique="symbolic execution of literal_value with z3 (leaves symbolic) vs Python's evaluation on the same proxies",
+    ),
+    "C17": dict(
+        category="model_checking",
+        text="Symbolic-literal run of the real rules (simplify_boolean_expressions, ..._symmath, "
+             "simplify_constrained_range, simplify_math_iterators, swap_if_else/early_continue negation, "
+             "replace_negated_numeric_comparison, remove_redundant_boolop_values, singleton_eq_comparison): constants "
+             "are marker literals = solver variables over all naturals < 10**6, variables are arbitrary integers; on "
+             "every path of the rule the original and the rewritten program are executed symbolically and z3 decides "
+             "equality of the printed values for all literal and variable values at once.",
+        design_ref="DESIGN.md section 4 / C17",
+        note="Trusted: z3, proxies, CPython as the semantics of both programs; counterexamples are replayed as closed "
+             "concrete programs through the unmodified rule and the real interpreter. Bounded: formula families (2-3 "
+             "comparisons, sympy formulas up to size 3/4), range box 0..6.",
+        technique="symbolic literals through the real rule + symbolic translation validation with z3 (LIA)",
+    ),
 }
 
 NOT_APPLICABLE = {
